@@ -376,8 +376,7 @@ def inplace(A, op, B):
             raise ModelError("TypeError", "in-place operation would change the size")
     elif op == "mul":
         if isinstance(B, MM) and (B.m, B.n) != (1, 1):
-            if len(A) == 0 or len(B) == 0:
-                raise Unspecified("in-place product involving an empty matrix")
+            # "In-place matrix-matrix products are not allowed" -- also when one of the matrices is empty
             raise ModelError("TypeError", "in-place matrix product")
         c = B.v[0] if isinstance(B, MM) else B
         tb = B.tc if isinstance(B, MM) else tc_of_number(B)
